@@ -617,6 +617,25 @@ Definition no_quote (w : string) : bool :=
 Definition is_hash (w : string) : bool := startswith w "--hash".
 Definition is_include_flag (w : string) : bool := String.eqb w "-r" || String.eqb w "--requirement".
 
+(* option and include lines are tokenised like a small command line (shlex): the white space
+   between their words is blank or tab, and quotes must be closed inside each word *)
+Definition sh_ws_ok (s : string) : bool :=
+  all_chars (fun c => Ascii.eqb c " "%char || Ascii.eqb c (ascii_of_nat 9)) s.
+Definition gap_ok_sh (g : gap) : bool :=
+  match g with
+  | GSp ws => nonempty ws && sh_ws_ok ws
+  | GBr ws ind => nonempty ws && sh_ws_ok ws && ws_ok ind
+  end.
+Definition quotes_closed (w : string) : bool :=
+  match shlex_word None w with Some _ => true | None => false end.
+Definition gw_ok_sh (x : gap * string) : bool := gap_ok_sh (fst x) && word_ok (snd x) && quotes_closed (snd x).
+(* `-r` / `--requirement` as a word, or `--requirement=...` / `-r=...` *)
+Definition is_include_form (w : string) : bool :=
+  is_include_flag w ||
+  match partition_char "="%char w with (flag, found, _) => found && is_include_flag flag end.
+Definition eq_gap (flag : string) (g : gap) : bool :=
+  String.eqb flag "--requirement" && match g with GSp ws => String.eqb ws "=" | _ => false end.
+
 Fixpoint conv_item (i : item) : bool :=
   match i with
   | IComment ind _ => ws_ok ind
@@ -628,32 +647,18 @@ Fixpoint conv_item (i : item) : bool :=
     && match opts with [] => true | (_, w) :: _ => is_hash w end
     && tail_ok true tl
   | IOpt ind first rest tl =>
-    ws_ok ind && word_ok first && startswith first "-"
-    && negb (is_include_flag first)
-    && forallb gw_ok rest && no_quote first && forallb (fun x => no_quote (snd x)) rest
-    && tail_ok false tl
+    (* option values quoted or not; a comment may follow *)
+    ws_ok ind && word_ok first && startswith first "-" && quotes_closed first
+    && negb (is_include_form (pip_word first))
+    && forallb gw_ok_sh rest
+    && tail_ok true tl
   | IInclude ind flag g path tl sub =>
-    ws_ok ind && is_include_flag flag && gap_ok g && word_ok path && tail_ok true tl
+    (* `-r FILE`, `--requirement FILE`, `--requirement=FILE` *)
+    ws_ok ind && is_include_flag flag && (gap_ok_sh g || eq_gap flag g) && word_ok path && no_quote path
+    && tail_ok true tl
     && (fix go (l : list item) := match l with [] => true | x :: r => conv_item x && go r end) sub
   end.
 Definition conventional (its : list item) : bool := forallb conv_item its.
-
-(* the statement's own domain: option values may be quoted (shlex must close the quotes)
-   and a comment may follow an option line *)
-Fixpoint conv_item_wide (i : item) : bool :=
-  match i with
-  | IOpt ind first rest tl =>
-    ws_ok ind && word_ok first && startswith first "-"
-    && negb (is_include_flag first)
-    && forallb gw_ok rest
-    && forallb (fun w => match shlex_word None w with Some _ => true | None => false end) (first :: map snd rest)
-    && tail_ok true tl
-  | IInclude ind flag g path tl sub =>
-    ws_ok ind && is_include_flag flag && gap_ok g && word_ok path && tail_ok true tl
-    && (fix go (l : list item) := match l with [] => true | x :: r => conv_item_wide x && go r end) sub
-  | _ => conv_item i
-  end.
-Definition conventional_wide (its : list item) : bool := forallb conv_item_wide its.
 
 (* pip additionally wants a literal space right before the first option of a requirement
    line (it splits the line on ' ' to find where the options start); used by T2 only, to
@@ -677,7 +682,8 @@ Definition pip_strict (its : list item) : bool := forallb pip_strict_item its.
 Inductive dkind := DIndex | DExtra | DFind.
 Definition dname (k : dkind) : string :=
   match k with DIndex => "--index-url" | DExtra => "--extra-index-url" | DFind => "--find-links" end.
-(* `--name value` (spaces) or `--name=value`, at column 0 *)
-Definition directive_item (k : dkind) (eq : bool) (sp : string) (v : string) (trail : string) : item :=
-  if eq then IOpt "" (dname k ++ "=" ++ v) [] (mkTail None trail)
-  else IOpt "" (dname k) [(GSp sp, v)] (mkTail None trail).
+(* `--name value` (blanks/tabs) or `--name=value`, possibly indented, the value possibly in
+   quotes, possibly followed by a comment *)
+Definition directive_item (k : dkind) (eq : bool) (ind sp q v : string) (tl : tail) : item :=
+  if eq then IOpt ind (dname k ++ "=" ++ q ++ v ++ q) [] tl
+  else IOpt ind (dname k) [(GSp sp, q ++ v ++ q)] tl.
